@@ -721,6 +721,44 @@ func signing(r *ev.Run) {
 		}
 		r.Nontrivial(fmt.Sprintf("odd-per-try:%v", pt))
 	}
+	// endpoints given as IPv6 literals (in brackets, the form a host:port target needs): alone, and as the endpoint to
+	// fall back to
+	if v6, verr := caserver.Start("[::1]", port, &tls.Config{Certificates: []tls.Certificate{ca.Issue(caserver.Leaf{CN: "crypki", IPs: []string{"::1"}})}, MinVersion: tls.VersionTLS12}); verr != nil {
+		r.Count("IPv6 endpoint cases skipped: cannot listen on [::1]", 1)
+	} else {
+		defer v6.Stop()
+		for vi, list := range [][]string{{"[::1]"}, {ips[0], "[::1]"}, {"[::1]", ips[1]}} {
+			c := r.Case("sign-ipv6-endpoint", vi)
+			if c == nil {
+				continue
+			}
+			text, want, _ := reply(c.Rand, 2)
+			v6.Set(func(context.Context, *proto.SSHCertificateSigningRequest) (*proto.SSHKey, error) {
+				return &proto.SSHKey{Key: text}, nil
+			})
+			byIP[ips[0]].Set(func(context.Context, *proto.SSHCertificateSigningRequest) (*proto.SSHKey, error) {
+				return nil, status.Error(codes.Unavailable, "scripted failure")
+			})
+			byIP[ips[1]].Set(func(context.Context, *proto.SSHCertificateSigningRequest) (*proto.SSHKey, error) {
+				return nil, status.Error(codes.Internal, "must not be asked")
+			})
+			r.Eval(1)
+			signer, err := crypki.NewSigner(crypki.SignerConfig{TLSClientKeyFile: clientKey, TLSClientCertFile: clientCert, TLSCACertFiles: []string{caPath}, CrypkiEndpoints: append([]string(nil), list...), CrypkiPort: uint(port), Retries: 1, PerTryTimeout: 10 * time.Second})
+			if err != nil {
+				r.Violation(c, "signer-construction-fails:ipv6-endpoint", err.Error(), list)
+				continue
+			}
+			ctx, cancel := context.WithTimeout(context.Background(), 60*time.Second)
+			certs, _, serr := signer.Sign(ctx, &proto.SSHCertificateSigningRequest{KeyMeta: &proto.KeyMeta{Identifier: "x"}, Principals: []string{"a"}, PublicKey: "k", Validity: 60})
+			cancel()
+			if serr != nil || len(certs) != len(want) || len(v6.Calls()) != 1 || len(byIP[ips[1]].Calls()) != 0 {
+				r.Violation(c, "healthy-ipv6-endpoint-not-used", fmt.Sprintf("endpoints %v: err=%v certs=%d; the IPv6 endpoint received %d requests, the endpoint after it %d", list, serr, len(certs), len(v6.Calls()), len(byIP[ips[1]].Calls())), list)
+			} else {
+				r.Count("endpoint lists with a bracketed IPv6 literal: that endpoint signs", 1)
+			}
+			r.Nontrivial(fmt.Sprintf("ipv6:%d", vi))
+		}
+	}
 	r.Extra("signing_cases", idx)
 }
 
